@@ -18,6 +18,8 @@ import random
 import shutil
 import sys
 import tempfile
+import time
+from concurrent.futures import ThreadPoolExecutor
 
 sys.path.insert(0, os.path.dirname(os.path.dirname(os.path.abspath(__file__))))
 from checks import lib  # noqa: E402
@@ -34,8 +36,8 @@ THOROUGH = dict(consts=dict(MaxN=5, SparseN=5, Full3N=3, Bnd3N=5, Bnd3SparseN=5)
                 random_groups=120, random_sets=400, random_maxn=16, tlc_timeout=3000)
 
 
-def laws_cfg(consts):
-    return ("SPECIFICATION Spec\nCONSTANTS\n"
+def laws_cfg(consts, spec="Spec"):
+    return (f"SPECIFICATION {spec}\nCONSTANTS\n"
             + "".join(f"  {k} = {v}\n" for k, v in consts.items())
             + "INVARIANT " + " ".join(LAWS) + "\nCHECK_DEADLOCK FALSE\n")
 
@@ -96,7 +98,10 @@ def _job(job):
     if os.path.isdir("/dev/shm") and os.access("/dev/shm", os.W_OK):
         tempfile.tempdir = "/dev/shm"
     try:
-        return seqset.run_job(job)
+        t0 = time.time()
+        r = seqset.run_job(job)
+        r["wall"] = round(time.time() - t0, 2)
+        return r
     except BaseException:  # noqa
         import traceback
         return {"gid": job["gid"], "error": traceback.format_exc()[-1500:]}
@@ -106,7 +111,9 @@ def plan(groups, P, first_gid=1):
     jobs = []
     gid = first_gid
     for gi, g in enumerate(groups):
-        grp = {"mode": g["mode"], "uids": g["uids"], "cover": g["cover"]}
+        # behind the last message two more have existed, except on the dense tables
+        tail = 0 if g["kind"] == "dense" else 2
+        grp = {"mode": g["mode"], "uids": g["uids"], "cover": g["cover"], "tail": tail}
         sets = g["sets"]
         for a in range(0, len(sets), P["l1_chunk"]):
             part = sets[a:a + P["l1_chunk"]]
@@ -117,11 +124,52 @@ def plan(groups, P, first_gid=1):
         for a in range(0, len(cov), P["l2_chunk"]):
             part = cov[a:a + P["l2_chunk"]]
             des = part[::P["destructive_every"]]
-            jobs.append({"layer": 2, "gid": gid, "group": {"mode": g["mode"], "uids": g["uids"]},
+            jobs.append({"layer": 2, "gid": gid,
+                         "group": {"mode": g["mode"], "uids": g["uids"], "tail": tail},
                          "cases": part, "destructive": des, "gi": gi,
                          "cost": len(part) * 8.0 + len(des) * 25.0})
             gid += 1
     return jobs
+
+
+def op_class(op):
+    """FETCH / STORE / COPY / MOVE / EXPUNGE / Search (all four SEARCH forms and
+    Mailbox.search) / the name of a function called directly."""
+    words = [w for w in op.split() if w != "UID"]
+    name = words[0] if words else op
+    return "Search" if name in ("SEARCH", "Mailbox.search") else name
+
+
+def run_laws(P, out):
+    t0 = time.time()
+    r = tlc.run("SeqSetLaws", laws_cfg(P["consts"]), env={"C15_CASES_OUT": out},
+                workers=10, timeout=P["tlc_timeout"])
+    return r, round(time.time() - t0, 1)
+
+
+def check_laws(ck, P, groups, cases, laws):
+    r, wall = laws.result()
+    ck.add_tlc("laws:" + ",".join(f"{k}={v}" for k, v in P["consts"].items()), r)
+    if r.violated:
+        ck.violation("C15.LawOfDenotation", act="model", where=r.violated,
+                     detail=f"TLC: {r.violated} violated by the reference denotation",
+                     replay_obj={"tlc_out": r.out[-6000:]})
+        return wall
+    if r.rc != 0:
+        raise RuntimeError(f"TLC failed on SeqSetLaws: {r.error}")
+    ncases = sum(len(g["sets"]) for g in groups)
+    expect = len(groups) + ncases + sum(1 for g in groups for s in g["sets"] if len(s) == 1)
+    if r.distinct != expect or not r.complete:
+        raise RuntimeError(f"TLC explored {r.distinct} states, the emitted space needs {expect}")
+    with open(cases, "rb") as f1, open(cases.replace("cases.json", "cases_again.json"), "rb") as f2:
+        if f1.read() != f2.read():
+            raise RuntimeError("the laws run enumerated another space than the one given to the code")
+    ck.cov["exhaustive"] = True
+    ck.cov["enumerated_cases"] = ncases
+    ck.cov["groups"] = [f"{g['mode']}:{g['kind']}:N={g['n']}:uids={g['uids']}:"
+                        f"{len(g['sets'])} sets/{len(g['cover'])} through commands"
+                        for g in groups]
+    return wall
 
 
 def _validate(path):
@@ -170,34 +218,27 @@ def fn(ck, a):
 
     P = THOROUGH if ck.tier == "thorough" else QUICK
     tmp = tempfile.mkdtemp(prefix="verif-c15-")
+    phase = {}
+    laws = None
     try:
         if a.replay:
             with open(a.replay) as f:
                 rp = json.load(f)
             groups, jobs = [], [dict(rp["job"], gid=1)]
         else:
-            # 1. laws of the denotation on the whole case space; the space is emitted
+            # 1. the case space is emitted by TLC (spec -> code) ...
             cases = os.path.join(tmp, "cases.json")
-            r = tlc.run("SeqSetLaws", laws_cfg(P["consts"]), env={"C15_CASES_OUT": cases},
-                        workers=16, timeout=P["tlc_timeout"])
-            ck.add_tlc("laws:" + ",".join(f"{k}={v}" for k, v in P["consts"].items()), r)
-            if r.violated:
-                ck.violation("C15.LawOfDenotation", act="model", where=r.violated,
-                             detail=f"TLC: {r.violated} violated by the reference denotation",
-                             replay_obj={"tlc_out": r.out[-6000:]})
-                return
+            t0 = time.time()
+            r = tlc.run("SeqSetLaws", laws_cfg(P["consts"], "SpecEmit"),
+                        env={"C15_CASES_OUT": cases}, workers=1, timeout=P["tlc_timeout"])
             if r.rc != 0:
-                raise RuntimeError(f"TLC failed on SeqSetLaws: {r.error}")
+                raise RuntimeError(f"TLC failed on SeqSetLaws (emission): {r.error}")
             groups = load_groups(cases)
-            ncases = sum(len(g["sets"]) for g in groups)
-            expect = len(groups) + ncases + sum(1 for g in groups for s in g["sets"] if len(s) == 1)
-            if r.distinct != expect or not r.complete:
-                raise RuntimeError(f"TLC explored {r.distinct} states, the emitted space needs {expect}")
-            ck.cov["exhaustive"] = True
-            ck.cov["enumerated_cases"] = ncases
-            ck.cov["groups"] = [f"{g['mode']}:{g['kind']}:N={g['n']}:uids={g['uids']}:"
-                                f"{len(g['sets'])} sets/{len(g['cover'])} through commands"
-                                for g in groups]
+            phase["emit"] = round(time.time() - t0, 1)
+            # ... and, while the implementation is being run, TLC checks the laws
+            # of the denotation on every case of that space (one state per case)
+            pool1 = ThreadPoolExecutor(1)
+            laws = pool1.submit(run_laws, P, os.path.join(tmp, "cases_again.json"))
             # 2. run the implementation on every case
             jobs = plan(groups, P)
             rnd = random_groups(ck.seed, P["random_groups"], P["random_sets"], P["random_maxn"])
@@ -206,13 +247,28 @@ def fn(ck, a):
         for j in jobs:
             j["seed"] = ck.seed
         order = sorted(jobs, key=lambda j: -j.get("cost", 0))
+        t0 = time.time()
         with mp.get_context("fork").Pool(14) as pool:
             results = pool.map(_job, order, chunksize=1)
+        phase["implementation"] = round(time.time() - t0, 1)
+        if os.environ.get("C15_DEBUG"):
+            for x in sorted(results, key=lambda x: -x.get("wall", 0))[:25]:
+                j = [j for j in jobs if j["gid"] == x["gid"]][0]
+                print("job", x["gid"], "layer", j["layer"], j["group"]["mode"], j["group"]["uids"],
+                      len(j["cases"]), len(j.get("destructive", [])), "cost", j["cost"], "wall", x.get("wall"))
+            print("sum wall", sum(x.get("wall", 0) for x in results))
+        if laws is not None:
+            phase["laws(concurrent)"] = check_laws(ck, P, groups, cases, laws)
+            if ck.violations:
+                return
         byid = {j["gid"]: j for j in jobs}
         failed = [x for x in results if x.get("error")]
         results = [x for x in results if not x.get("error")]
         # 3. TLC validates what the code did
+        t0 = time.time()
         viols, done, states, errs, cmd = validate(results, tmp) if results else ([], {}, 0, [], "")
+        phase["validation"] = round(time.time() - t0, 1)
+        ck.cov["phase_wall_s"] = phase
         if errs:
             raise RuntimeError("TLC validation failed: " + errs[0][:800])
         for x in results:
@@ -251,7 +307,7 @@ def fn(ck, a):
         for gid, idx, op, what in viols:
             x = res_by[gid]
             c = x["cases"][idx - 1]
-            clause = f"C15.{op.replace(' ', '_')}.{what}"
+            clause = f"C15.{op_class(op)}.{what}"
             size = (len(c["set"]), sum(len(e) for e in c["set"]), len(c.get("uids", x["uids"])),
                     seqset.render(c["set"]))
             per.setdefault(clause, []).append((size, gid, idx, op))
